@@ -93,12 +93,19 @@ def build_map(cfg):
             kw["defaults"] = {d["name"]: _default_value(d) for d in r["defaults"]}
         objs.append(Rule(rule_string(r), endpoint=r["endpoint"] or f"e{i + 1}", methods=r["methods"],
                          strict_slashes=_TRI[r["strict"]], merge_slashes=_TRI[r["merge"]],
-                         alias=r["alias"], websocket=ws, **kw))
+                         alias=r["alias"], websocket=ws, subdomain=r.get("sub"), **kw))
+    b = cfg["bind"]
     m = Map(objs, strict_slashes=cfg["map"]["strict"], merge_slashes=cfg["map"]["merge"],
-            redirect_defaults=cfg["map"]["rd"], default_subdomain=cfg["bind"]["sub"])
-    ad = m.bind(cfg["bind"]["server"], cfg["bind"]["script"], url_scheme=cfg["bind"]["scheme"],
-                subdomain=cfg["bind"]["sub"] or None)
+            redirect_defaults=cfg["map"]["rd"], default_subdomain=cfg["map"].get("dsub", b["sub"]))
+    # "bsub" given (also as ""): passed to bind() as it is; not given: bind(subdomain=None) -> the map's default
+    ad = m.bind(b["server"], b["script"], url_scheme=b["scheme"],
+                subdomain=b["bsub"] if b.get("bsub") is not None else (b["sub"] or None) if "dsub" not in cfg["map"] else None)
     return m, ad, objs
+
+
+def eff_bind_sub(cfg):
+    b = cfg["bind"]
+    return b["bsub"] if b.get("bsub") is not None else cfg["map"].get("dsub", b["sub"])
 
 
 def _dance(s):
@@ -112,7 +119,8 @@ def environ_for(cfg, path, q, method):
     for ws / wss."""
     b = cfg["bind"]
     scheme = b["scheme"]
-    host = b.get("env_host") or ((b["sub"] + "." if b["sub"] else "") + b["server"])
+    sub = eff_bind_sub(cfg)
+    host = b.get("env_host") or ((sub + "." if sub else "") + b["server"])
     name, _, port = host.partition(":")
     env = {"wsgi.url_scheme": {"ws": "http", "wss": "https"}.get(scheme, scheme), "REQUEST_METHOD": method,
            "SCRIPT_NAME": _dance(b["script"]), "PATH_INFO": _dance(path),
@@ -132,7 +140,7 @@ def adapter_via_environ(m, cfg, path, q, method):
         return m.bind_to_environ(env)
     if b["via"] == "environ_sn":
         return m.bind_to_environ(env, server_name=b.get("sn_arg") or b["server"])
-    return m.bind_to_environ(env, server_name=b.get("sn_arg") or b["server"], subdomain=b["sub"])
+    return m.bind_to_environ(env, server_name=b.get("sn_arg") or b["server"], subdomain=eff_bind_sub(cfg))
 
 
 def _val_text(v):
@@ -141,14 +149,22 @@ def _val_text(v):
     return str(v)
 
 
-def observe(ad, objs, path, method, query=None):
-    """One MapAdapter.match call -> outcome record (all fields always present)."""
+def observe(ad, objs, path, method, query=None, call="match"):
+    """One MapAdapter.match call (or dispatch) -> outcome record (all fields always present)."""
     from werkzeug.exceptions import MethodNotAllowed, NotFound
     from werkzeug.routing import RequestRedirect
 
     out = {"kind": "other", "rule": 0, "args": [], "url": [], "methods": [], "exc": ""}
     try:
-        rl, args = ad.match(path, method, return_rule=True, query_args=query)
+        if call == "dispatch":
+            # dispatch() hands endpoint and arguments to the view and *returns* a RequestRedirect
+            res = ad.dispatch(lambda ep, a: ("view", ep, a), path, method)
+            if isinstance(res, RequestRedirect):
+                raise res
+            rl = next((o for o in objs if o.endpoint == res[1]), None)
+            args = res[2]
+        else:
+            rl, args = ad.match(path, method, return_rule=True, query_args=query)
     except RequestRedirect as e:
         out.update(kind="redirect", url=cps(e.new_url), exc=type(e).__name__)
     except MethodNotAllowed as e:
@@ -184,16 +200,23 @@ def query_of(q):
     return None
 
 
-def run_case(cfg, ad, objs, path, method, q, follow=True, first_from_adapter=False):
+def run_case(cfg, ad, objs, path, method, q, follow=True, first_from_adapter=False, how=None):
+    """how = {"call": "match" | "dispatch" | "default", "spell": the method as the caller writes it ("post", "Get")};
+    `method` stays the HTTP method meant (upper case): its letter case is a dimension of the driver, like the way the
+    adapter is created."""
+    spell = (how or {}).get("spell", method)
+    call = (how or {}).get("call", "match")
     if first_from_adapter:
         r = observe(ad, objs, None, None, query_of(q) if q["kind"] == "map" else None)
+    elif call == "default":
+        r = observe(ad, objs, path, None, query_of(q))          # the adapter was bound with default_method=spell
     else:
-        r = observe(ad, objs, path, method, query_of(q))
+        r = observe(ad, objs, path, spell, None if call == "dispatch" else query_of(q), call=call)
     hops = []
     cur = r
     while follow and cur["kind"] == "redirect" and len(hops) < 5:
         p2 = deliver(cfg, cur["url"])
-        cur = observe(ad, objs, p2, method, query_of(q))
+        cur = observe(ad, objs, p2, None if call == "default" else spell, query_of(q))
         hops.append({"path": cps(p2), "r": cur})
     return {"op": "match", "path": cps(path), "method": method,
             "q": {"kind": q["kind"], "s": cps(q["s"]), "pairs": [[cps(k), cps(v)] for k, v in q["pairs"]]},
@@ -217,10 +240,14 @@ def enc_cfg(cfg, c03):
                       "methods": list(r["methods"] or []), "strict": r["strict"], "merge": r["merge"],
                       "endpoint": r["endpoint"] or f"e{i + 1}",
                       "defaults": [{"name": d["name"], "ty": d["ty"], "v": cps(d["v"])} for d in r["defaults"]],
-                      "alias": r["alias"]})
+                      "alias": r["alias"],
+                      "subk": "d" if r.get("sub") is None else "s", "subv": cps(r.get("sub") or "")})
     b = cfg["bind"]
-    return {"op": "cfg", "rules": rules, "map": cfg["map"], "c03": c03, "c12": cfg.get("c12", True), "canon": cfg.get("canon", False),
-            "bind": {"scheme": cps(b["scheme"]), "server": cps(b["server"].lower()), "script": cps(b["script"]), "sub": cps(b["sub"])}}
+    mp = {"strict": cfg["map"]["strict"], "merge": cfg["map"]["merge"], "rd": cfg["map"]["rd"],
+          "dsub": cps(cfg["map"].get("dsub", b["sub"]))}
+    return {"op": "cfg", "rules": rules, "map": mp, "c03": c03, "c12": cfg.get("c12", True), "canon": cfg.get("canon", False),
+            "bind": {"scheme": cps(b["scheme"]), "server": cps(b["server"].lower()), "script": cps(b["script"]), "sub": cps(b["sub"]),
+                     "subk": "s" if b.get("bsub") is not None else "d", "subv": cps(b.get("bsub") or "")}}
 
 
 DEFAULT_BIND = {"scheme": "http", "server": "example.org", "script": "/", "sub": ""}
@@ -236,9 +263,15 @@ def run_group(arg):
     m, ad, objs = build_map(cfg)
     via = cfg["bind"].get("via", "bind")
     out = [enc_cfg(cfg, c03)]
-    for i, (path, method, q) in enumerate(cases):
-        if via == "bind":
-            ln = run_case(cfg, ad, objs, path, method, q)
+    for i, case in enumerate(cases):
+        path, method, q = case[:3]
+        how = case[3] if len(case) > 3 else None
+        if how and how["call"] == "default":
+            b = cfg["bind"]
+            dad = m.bind(b["server"], b["script"], url_scheme=b["scheme"], subdomain=ad.subdomain, default_method=how["spell"])
+            ln = run_case(cfg, dad, objs, path, method, q, how=how)
+        elif via == "bind":
+            ln = run_case(cfg, ad, objs, path, method, q, how=how)
         else:
             # the adapter is created from the request's WSGI environ; the first match takes path, method and query
             # string from it (no arguments), the follow-up hops are delivered to the same adapter explicitly
